@@ -24,7 +24,10 @@ TRUSTED_BASE = [
 ]
 ASSUMPTIONS = [
     "theorems quantify over static layouts with positive bounds (layout_okb); dynamic entries are covered by L1/L2 only",
-    "print/parse is checked on the implementation (L2), not modelled in Coq",
+    "print/parse is modelled at token level (coq/Model/TslText.v); the lexer is not: L1 compares tokens produced by the "
+    "harness's regex tokenizer (`tokenize`) from str(layout) / from the text handed to the real parser",
+    "subview pointer arithmetic: only dynamic offsets are lowered by convert-memref-to-arith (static offsets live in the "
+    "result type's layout offset, consumed by snax-copy-to-dma: property C05)",
 ]
 
 
@@ -66,7 +69,7 @@ def gen_layout(rng, allow_dynamic=True, max_total=768):
                 cur += rng.choice([1, 2, 8])
     elif mode == "random":
         for p in positions:
-            steps[p] = rng.choice([1, 2, 3, 4, 5, 7, 8, 16, 32, 64, 100])
+            steps[p] = rng.choice([1, 2, 3, 4, 5, 7, 8, 16, 32, 64, 100, -1, -4])
     else:
         pool = [rng.choice([1, 2, 4, 8, 16]) for _ in range(2)]
         for p in positions:
@@ -181,6 +184,8 @@ def correspondence(ctx):
     n = ctx.n(300, 4000)
     cases = {k: [] for k in ("canon", "allv", "ovl", "dense", "aff", "from", "lccb", "tb", "print", "parse", "bops", "sops", "subview")}
     meta = {k: [] for k in cases}
+    crashed = []      # crashes of the implementation on inputs where the model is defined
+    cases["_crashed"] = crashed
     for i in range(n):
         ts, off = gen_layout(rng)
         l = mk(ts, off)
@@ -253,8 +258,9 @@ def correspondence(ctx):
             cases["lccb"].append(f"({L}, {coq_layout(ts2, 0)}, {zlit(start)}, {rr})")
             meta["lccb"].append((ts, ts2, start))
             ctx.count({"method": "lccb", "a": str(l), "b": str(l2), "start": start, "result": [str(s) for s in r]}, len(r) > 1, f"lc{ts}{ts2}{start}", "lccb")
-        except Exception as e:  # pragma: no cover
+        except Exception as e:  # the model is total here (equal structure): a crash is a disagreement
             ctx.notes.append(f"lccb raised {e!r} on {l} / {l2}")
+            crashed.append({"name": "L1:lccb-raised", "error": repr(e)[:300], "case": (ts, ts2, start)})
 
     text = ["From Snax Require Import Base.Prelude Model.Tsl Model.TslText Model.TslOps.",
             "Definition opt_zll_eqb (a b : option (list (list Z))) : bool := match a, b with Some x, Some y => list_eqb (list_eqb Z.eqb) x y | None, None => true | _, _ => false end.",
@@ -281,7 +287,7 @@ def correspondence(ctx):
         files.append(header + f"Definition cases_{k} := {coqlist(cases[k])}.\n"
                      f"Eval vm_compute in failing ({tests[k]}) cases_{k}.\n")
     results = vlib.coq_eval_many("c10_", files, timeout=900, par=8)
-    dis = []
+    dis = list(crashed)
     for k, (ok, out) in zip(order, results):
         lists = vlib.parse_all_eval_lists(out)
         if not ok or len(lists) != 1:
@@ -351,12 +357,16 @@ def _ops_cases(rng, ctx, ts, off, l, L, nt, cases, meta):
             cases["sops"].append(f"({L}, {coqlist(zlist(b) for b in bv)}, {zlit(el)}, {zlist(sv)})")
             meta["sops"].append((ts, bv, el))
             ctx.count({"method": "get_step_ops", "layout": str(l), "el_bytes": el, "steps": sv}, nt, f"so{ts}{bv}{el}", "step_ops")
-        except Exception as e:  # pragma: no cover
+        except Exception as e:  # bound ops exist and every tile list is non-empty: the model defines the steps
             ctx.notes.append(f"get_step_ops raised {e!r} on {l}")
+            cases["_crashed"].append({"name": "L1:get_step_ops-raised", "error": repr(e)[:300], "case": (ts, off)})
     # subview pointer (static layouts only; every inner bound static by construction)
-    if is_static(ts) and all(b > 0 and s > 0 for t in ts for (s, b) in t):
+    # (the IR text of a dynamic layout offset cannot be parsed at all: known finding F21)
+    if is_static(ts) and off is not None and all(b > 0 and s > 0 for t in ts for (s, b) in t):
         r = _subview_case(rng, ts, l)
-        if r is not None:
+        if isinstance(r, dict):
+            cases["_crashed"].append(r)
+        elif r is not None:
             el, offs, delta = r
             cases["subview"].append(f"({L}, {zlit(el)}, {coqlist(f'({d}%nat, {zlit(o)})' for d, o in offs)}, {zlit(delta)})")
             meta["subview"].append((ts, el, offs))
@@ -408,8 +418,8 @@ def _subview_case(rng, ts, l):
                 k += 1
         final = ops[-1]
         return el, offs, _eval_arith(final.operands[0], env)
-    except Exception as e:
-        return None
+    except Exception as e:  # static positive layout, in-range offsets: the lowering must succeed
+        return {"name": "L1:subview-lowering-raised", "error": repr(e)[:300], "case": (ts, el, offs)}
 
 
 def _prod(xs):
@@ -475,7 +485,8 @@ def check_layout(ts, off):
             fails.append(("canonicalize_all_values", {"before": av[:32], "after": cav[:32], "canon": str(c)}, None))
         cshape = [_prod(s.bound for s in tt.strides) for tt in c.tstrides]
         if cshape != shape or c.offset != l.offset:
-            fails.append(("canonicalize_shape", {"before": shape, "after": cshape}, None))
+            fails.append(("canonicalize_shape_or_offset", {"before": shape, "after": cshape,
+                                                           "offset_before": l.offset, "offset_after": c.offset}, None))
         else:
             mc = TiledStridedLayoutAttr(c).get_affine_map()
             via_c = [mc.eval(list(p), [])[0] for p in itertools.product(*[range(s) for s in shape])]
@@ -490,12 +501,13 @@ def check_layout(ts, off):
     return fails
 
 
-def check_from_strides(rng):
+def check_from_strides(rng, strides=None, tbs=None):
     Stride, TiledStride, TSL = _impl()
     from snaxc.dialects.tsl import TiledStridedLayoutAttr
-    rank = rng.choice([1, 2, 3])
-    tbs = [[rng.choice([1, 2, 3, 4]) for _ in range(rng.choice([1, 2, 3]))] for _ in range(rank)]
-    strides = [rng.choice([1, 2, 3, 8, 16, 100]) for _ in range(rank)]
+    if strides is None:
+        rank = rng.choice([1, 2, 3])
+        tbs = [[rng.choice([1, 2, 3, 4]) for _ in range(rng.choice([1, 2, 3]))] for _ in range(rank)]
+        strides = [rng.choice([1, 2, 3, 8, 16, 100]) for _ in range(rank)]
     l = TSL.from_strides(strides, tbs, 0)
     shape = [_prod(b) for b in tbs]
     m = TiledStridedLayoutAttr(l).get_affine_map()
@@ -508,11 +520,36 @@ def check_from_strides(rng):
     return []
 
 
-def check_lccb(rng, ts):
+def check_ops(ts, off, sizes, el):
+    """run-time views (property level, no model): for tile-aligned run-time sizes the evaluated bound ops are the static
+    bounds, a dynamic outermost bound times the inner tile is the size, and every static step op is step * el_bytes."""
+    from xdsl.dialects.arith import ConstantOp
+    from xdsl.dialects.builtin import IndexType, IntegerType, MemRefType
+    from xdsl.utils.test_value import create_ssa_value
+    from snaxc.dialects.tsl import TiledStridedLayoutAttr
+    a = TiledStridedLayoutAttr(mk(ts, off))
+    _, mp = a.get_bound_ops([ConstantOp.from_int_and_width(n, IndexType()) for n in sizes])
+    bv = [[_eval_arith(mp[(d, k)].results[0], {}) for k in range(len(ts[d]))] for d in range(len(ts))]
+    for d, t in enumerate(ts):
+        want = [b for (_, b) in t]
+        if any(b is not None and b != g for b, g in zip(want, bv[d])) or _prod(bv[d]) != sizes[d]:
+            return [("bound_ops", {"sizes": sizes, "dim": d, "bounds": bv[d], "el_bytes": el}, None)]
+    mt = MemRefType(IntegerType(8 * el), [-1 if t[0][1] is None else n for t, n in zip(ts, sizes)], a)
+    _, smp = a.get_step_ops(mp, create_ssa_value(mt), in_bytes=True)
+    for d, t in enumerate(ts):
+        for k, (st, _) in enumerate(t):
+            got = _eval_arith(smp[(d, k)].results[0], {})
+            if st is not None and got != st * el:
+                return [("step_ops", {"sizes": sizes, "dim": d, "depth": k, "got": got, "want": st * el, "el_bytes": el}, None)]
+    return []
+
+
+def check_lccb(rng, ts, ts2=None, start=None):
     """the block reported for two layouts is contiguous in both and shared by both."""
-    ts2 = _perturb(rng, ts)
+    if ts2 is None:
+        ts2 = _perturb(rng, ts)
+        start = rng.choice([1, 2, 4, 8])
     a, b = mk(ts, 0), mk(ts2, 0)
-    start = rng.choice([1, 2, 4, 8])
     r = a.largest_common_contiguous_block(b, start)
     flat_a = [(d, k, s) for d, t in enumerate(ts) for k, s in enumerate(t)]
     if len(r) == 1 and r[0].step == start and r[0].bound == 1:
@@ -523,7 +560,8 @@ def check_lccb(rng, ts):
         cands = [(d, k) for (d, k, sb) in flat_a if sb == (s.step, s.bound) and (d, k) not in used
                  and ts2[d][k] == (s.step, s.bound)]
         if not cands or s.step != cur:
-            return [("lccb", {"a": str(a), "b": str(b), "start": start, "result": [str(x) for x in r]}, None)]
+            return [("lccb", {"a": str(a), "b": str(b), "start": start, "result": [str(x) for x in r],
+                              "ts": ts, "ts2": ts2}, None)]
         used.add(cands[0])
         cur = None if (s.step is None or s.bound is None) else s.step * s.bound
     return []
@@ -535,7 +573,9 @@ def search(ctx, deep=False):
     fails = []
     for i in range(n):
         ts, off = gen_layout(rng, allow_dynamic=(i % 3 == 0), max_total=512)
-        for what, detail, klass in check_layout(ts, off) + check_lccb(rng, ts) + check_from_strides(rng):
+        sizes = [_prod(b for (_, b) in t if b) * (rng.choice([1, 2, 3, 5]) if t[0][1] is None else 1) for t in ts]
+        ops = check_ops(ts, off, sizes, rng.choice([1, 2, 4, 8])) if all(s for t in ts for (s, _) in t if s is not None) else []
+        for what, detail, klass in check_layout(ts, off) + check_lccb(rng, ts) + check_from_strides(rng) + ops:
             fails.append({"what": what, "layout": [ts, off], "detail": detail, "klass": klass})
         ctx.count({"L2": "layout", "layout": [ts, off]}, nontrivial(ts), f"l2{ts}{off}", "L2")
     return _dedup(fails)
@@ -563,9 +603,18 @@ def replay(ctx, obj):
     if not f:
         print("no failing input recorded; broken obligations:", obj.get("no_longer_checks"))
         return 1
-    ts = [[tuple(sb) for sb in t] for t in f["layout"][0]]
-    res = check_layout(ts, f["layout"][1])
-    print("layout:", mk(ts, f["layout"][1]))
+    d = f.get("detail", {})
+    if f.get("what") == "lccb" and "ts2" in d:
+        tup = lambda x: [[tuple(sb) for sb in t] for t in x]
+        res = check_lccb(None, tup(d["ts"]), tup(d["ts2"]), d["start"])
+    elif str(f.get("what", "")).startswith("from_strides") and "strides" in d:
+        res = check_from_strides(None, d["strides"], d["tile_bounds"])
+    elif f.get("what") in ("bound_ops", "step_ops"):
+        res = check_ops([[tuple(sb) for sb in t] for t in f["layout"][0]], f["layout"][1], d["sizes"], d["el_bytes"])
+    else:
+        ts = [[tuple(sb) for sb in t] for t in f["layout"][0]]
+        res = check_layout(ts, f["layout"][1])
+        print("layout:", mk(ts, f["layout"][1]))
     for r in res:
         print("FAIL", r)
     return 1 if res else 0
